@@ -240,6 +240,23 @@ SPEC_C10 = {
     "rule": PREPARE_RULE,
 }
 
+def mon_c16_fixed(case, verdict, chk):
+    """hand-written shapes outside the generator's language (namespaced references in the input scope of a sub-workflow, ...):
+    N preparations on fresh executors agree in verdict, dependency graph, output schemas and namespaces; none panics."""
+    if case.get("kind") != "prepare-fixed":
+        return
+    chk.hist["fixed:" + str(case.get("verdict"))] = chk.hist.get("fixed:" + str(case.get("verdict")), 0) + 1
+    replay = {"kind": "impl-counterexample", "case": {k: case.get(k) for k in ("id", "scenario", "yaml", "files", "runs", "differs", "err")},
+              "replay_harness": ["prepare-fixed", "-n", str(len(case.get("runs") or []))]}
+    if case.get("verdict") == "panic" or any(r.get("verdict") == "panic" for r in case.get("runs") or []):
+        chk.violation("C16:fixed:panic", "preparing the scenario %r panicked: %s" % (case.get("scenario"), str(case.get("panic_text") or case.get("err"))[:300]), replay)
+        return
+    verdicts = sorted({(r.get("verdict"), r.get("err_class")) for r in case.get("runs") or []})
+    if len(verdicts) > 1 or case.get("differs"):
+        chk.violation("C16:fixed:differs", "%d preparations of the same text (%s) do not agree: verdicts %s%s"
+                      % (len(case.get("runs") or []), case.get("scenario"), verdicts, ("; " + case["differs"]) if case.get("differs") else ""), replay)
+
+
 SPEC_C16 = {
     "module": "Arca.Props.C16",
     "theorems": [
@@ -258,7 +275,10 @@ SPEC_C16 = {
         "Arca.Props.C16.prepare_output_key_order",
     ],
     "pins": PREPARE_PINS,
-    "streams": [S_prepare(mon_c16_prepare, seed_off=500)],
+    "streams": [S_prepare(mon_c16_prepare, seed_off=500),
+                {"name": "prepare-fixed", "harness": lambda t, s: ["prepare-fixed", "-n", "40" if t == "thorough" else "12"],
+                 "driver": None, "monitor": mon_c16_fixed, "nontrivial": lambda c: True,
+                 "sample": lambda c: {k: c.get(k) for k in ("id", "scenario", "verdict", "differs")}}],
     "rule": PREPARE_RULE + "; every text is prepared 4 times, accepted uncorrupted workflows also as 2 permuted renderings "
             "(steps, map keys, outputs) and 1 consistently renamed copy",
 }
